@@ -493,6 +493,19 @@ Definition py_native (s : list Z) : result (Z * durobs) :=
   end.
 Definition py_dur (s : list Z) : result durobs := bind (py_native s) (fun xo => Ok (snd xo)).
 
+(* ------------------------------------------------------------------ the `except OverflowError: raise ParserError(...)` clauses
+   py_native / py_dur / rs_glue / rs_dur above are the code INSIDE the try blocks (an OverflowError is what int()/10, float arithmetic and
+   Duration.__new__ / timedelta.__new__ raise for a value that does not fit); the functions below are what the callers see:
+     parsing/iso8601.py::parse_iso8601   try: parsed = _parse_iso8601_duration(text)  except OverflowError: raise ParserError
+     parser.py::_parse                   try: return pendulum.duration(years=parsed.years, ...)  except OverflowError: raise ParserError
+   (ParserError is a ValueError; at this level the two are not distinguished).  These are the functions the correspondence runs. *)
+Definition ov_to_ve {A} (r : result A) : result A :=
+  match r with Raise E_OverflowError => Raise E_ValueError | _ => r end.
+Definition py_native_c (s : list Z) : result (Z * durobs) := ov_to_ve (py_native s).
+Definition py_dur_c (s : list Z) : result durobs := ov_to_ve (py_dur s).
+Definition rs_glue_c (r : rsdur) : result (Z * durobs) := ov_to_ve (rs_glue r).
+Definition rs_dur_c (s : list Z) : result durobs := bind (rs_raw s) (fun r => bind (rs_glue_c r) (fun xo => Ok (snd xo))).
+
 (* ------------------------------------------------------------------ interval glue (pendulum/parsing/__init__.py, parser.py) *)
 (* the eight keyword arguments handed to DateTime.add / DateTime.subtract *)
 Definition parts := (Z * Z * Z * Z * Z * Z * Z * Z)%type.
@@ -539,7 +552,7 @@ Definition py_interval (s : list Z) : result (Z * parts) :=
   bind (interval_form s) (fun fd =>
     let '(form, d) := fd in
     if form =? 0 then Ok (0, (0, 0, 0, 0, 0, 0, 0, 0)) else
-    bind (py_native d) (fun xo => bind (py_parts (fst xo) (snd xo)) (fun p => Ok (form, p)))).
+    bind (py_native_c d) (fun xo => bind (py_parts (fst xo) (snd xo)) (fun p => Ok (form, p)))).
 
 Definition rs_interval (s : list Z) : result (Z * parts) :=
   bind (interval_form s) (fun fd =>
